@@ -11,6 +11,7 @@
 Nothing here imports gfapy at module level and nothing here looks at gfapy's private state.
 """
 import re, json, signal, traceback, os
+from harness import lib as _lib
 
 # ----------------------------------------------------------------------------------------------------
 # 1. grammar
@@ -548,7 +549,8 @@ def dollar_rule(V, slen, s, b, e):
 # ----------------------------------------------------------------------------------------------------
 # 2. foreign exceptions (C07)
 # ----------------------------------------------------------------------------------------------------
-def innermost_gfapy_frame(exc, repo="/repo"):
+def innermost_gfapy_frame(exc, repo=None):
+    repo = repo or _lib.REPO
     """'<path below gfapy/>:<function>' of the innermost traceback frame that lies in gfapy's source."""
     best = None
     tb = exc.__traceback__
@@ -563,7 +565,8 @@ def innermost_gfapy_frame(exc, repo="/repo"):
     return best or "?"
 
 
-def recursion_cycle_frame(exc, repo="/repo"):
+def recursion_cycle_frame(exc, repo=None):
+    repo = repo or _lib.REPO
     """for a RecursionError: a stable representative of the recursion cycle -- the lexicographically smallest
     '<file>:<function>' among the gfapy frames that occur at least half as often as the most frequent one"""
     import collections
